@@ -72,3 +72,22 @@ package codec
 //@   flags libframe
 //@   loop 2: invariant[array-in-range-ascending] 0 <= i && (i == 0 || i == ghost.idxNext) && numElems <= ghost.idxLen
 //@   loop 3: invariant[slice-in-range-ascending] 0 <= i && (i == 0 || i == ghost.idxNext) && numElems == ghost.idxLen
+
+// ---- C11: the protobuf codec decodes into a reset destination -------------------------
+// proto3 leaves zero-valued fields off the wire, so decode(encode(v)) == v holds for
+// a destination that was used before only if the decoder clears it first.
+// gogo/protobuf (library, read from its source): proto.Unmarshal = Reset + merge;
+// UnmarshalMerge and (*Buffer).Unmarshal merge into whatever the destination holds.
+// ghost.pbResetDecodes counts decodes through the resetting entry point.
+//@ ghost global pbResetDecodes int
+//@ ext github.com/gogo/protobuf/proto.Unmarshal
+//@   params buf pb
+//@   flags libframe
+//@   modifies ghost.pbResetDecodes
+//@   ghostset ghost.pbResetDecodes = old(ghost.pbResetDecodes) + 1
+//@ func ProtoUnmarshal
+//@   property C11
+//@   flags libframe
+//@   modifies ghost.pbResetDecodes
+//@   ensures[message-decoded-into-a-reset-destination] @C11 result == nil && implements(v, type(github.com/gogo/protobuf/proto.Message)) ==> ghost.pbResetDecodes == old(ghost.pbResetDecodes) + 1
+//@   ensures[decodes-at-most-once] @C11 ghost.pbResetDecodes <= old(ghost.pbResetDecodes) + 1
